@@ -39,7 +39,7 @@ CONFIG = dict(
          "further requests and notifies (nesting <= 3, including synchronous serialisation-failure callbacks) and that panic when run as a timeout completion "
          "(alone or with several entries due in the same scan, callback and nil-callback ones mixed); replies ok / empty / error / undecodable to pending, completed (late, duplicate), "
          "notify and unknown instances; raw responses for id 0, small, MaxReqId, MaxInt32 and pending ids; clock advances aimed at deadline-1000..deadline+2000 including deadline-1, deadline, "
-         "deadline+1 and the scan instants, long advances; allocator preset near MaxReqId (wrap) and at random values; node-level app.Request without a route, and app.Request / app.Notify routed through the real cluster directory (UpdateClusterTopology + address resolver) to a peer that answers at once and to one that holds requests, also unroutable and unserialisable notifies; ok replies with the all-default value 0 and replies of the field-less type EmptyArg (zero bytes on the wire, must arrive non-nil and of their type), error replies with int32 codes from the whole range. "
+         "deadline+1 and the scan instants, long advances; allocator preset near MaxReqId (wrap) and at random values; requests and notifies to a peer that is a real service with an apimapper API dispatcher whose handler keeps the completion callback and completes it later, out of order, with other requests dispatched in between; clock advances during which the service goroutine is parked in a handler while 999-1300 zero-delay timers overflow timer.Mgr's queue and an expiry tick falls into the window (delivered late, the period restarts there; the run-service loop's 2 ms busy-frame throttle is part of the op), followed by a request to the silent peer and +31 s; node-level app.Request without a route, and app.Request / app.Notify routed through the real cluster directory (UpdateClusterTopology + address resolver) to a peer that answers at once and to one that holds requests, also unroutable and unserialisable notifies; ok replies with the all-default value 0 and replies of the field-less type EmptyArg (zero bytes on the wire, must arrive non-nil and of their type), error replies with int32 codes from the whole range. "
          "A `crowd` stream spawns 3-24 services from one props (one scheDisp / run-service goroutine), parks that goroutine inside a posted closure, lets one foreign goroutine per service "
          "deliver a reply (more than the 9-slot dispatcher queue holds), releases it and checks that every reply callback, timer callback and posted closure ran on the one goroutine, never two at once. "
          "The order in which one scan runs several timeout callbacks (Go map order), and which nil-callback entries it had already removed before each of them, "
@@ -48,7 +48,7 @@ CONFIG = dict(
     trusted_base=[
         "Lean 4.33.0 kernel; axioms of every property theorem audited on each run (allowed: propext, Classical.choice, Quot.sound)",
         "hand-written model lean/Cell2v/Model/Service.lean tied to the Go code by the differential run of this check (harness/c01 + modeld_c01)",
-        "driver-level model of the expiry timer's phase (armed at T: scans at T+1000k) and of callback scripts (lean/Cell2v/Driver/C01.lean)",
+        "driver-level model of the expiry timer's phase (armed at T: scans at T+1000k; a tick that falls into a window in which the service goroutine is busy is delivered at its end, +2 ms loop throttle) and of callback scripts (lean/Cell2v/Driver/C01.lean)",
         "go1.26 testing/synctest virtual clock; proto.actor local message delivery; harness canonicalisation (errors -> ok/rerr/err/timeout/noservice, pending ids sorted)",
     ],
     assumptions=[
